@@ -494,8 +494,7 @@ def main(argv):
             continue
         if pid not in s["props"]:
             continue
-        ht = s.get("tier", "quick")
-        if ht == "quick" or (ht == "thorough" and tier == "thorough") or (ht == "quick-only" and tier == "quick"):
+        if tier == "thorough" or n in registry.QUICK.get(pid, []):
             sel[n] = s
     engine_b = [q for q in getattr(registry, "ENGINE_B", []) if pid in q["props"]] if not args.only else []
     if not sel and not engine_b:
